@@ -100,7 +100,7 @@ PROPS = {
         "race": True, "race_share": 0.35,
     },
     "C07": {
-        "autoyield": ["lib/concurrent/concurrent.go", "env/env.go"],
+        "autoyield": ["lib/concurrent/concurrent.go", "env/env.go", "loops:mal.go", "loops:lib/core/core.go", "loops:types/types.go"],
         "level": "exploration",
         "design_ref": "DESIGN.md §5.4",
         "technique": "deterministic simulation: fake clock, cancellation injected at any step or instant into generated non-terminating programs; bounded-steps-after-cancel invariant",
